@@ -299,6 +299,12 @@ pub fn draw(rng: &mut StdRng, item: &Value, uniq: &mut HashMap<String, HashSet<S
             (json!(s), b)
         }
         // bare text (delimited by the surrounding literals); `excl` lists the characters it must avoid
+        "text" if item["len"].as_u64().unwrap_or(0) > 0 => {
+            // a value of exactly this many characters (a status reply is one datagram whatever its size)
+            let n = item["len"].as_u64().unwrap() as usize;
+            let s: String = (0 .. n).map(|i| (b'a' + ((i * 7 + n) % 26) as u8) as char).collect();
+            (json!(s), s.into_bytes())
+        }
         "text" => {
             let min = item["min"].as_u64().unwrap_or(0) as usize;
             let mut excl = excl.clone();
